@@ -80,6 +80,47 @@ pub fn run(args: &Args, tier: &str, seed: u64) -> Report {
             }
         }
     }
+    // ---- targets with no path, "/" alone, and the shortest paths: the request line carries exactly that (an empty path is "/")
+    if only.is_none() {
+        let bare = Server::start(None).expect("server");
+        let resp = response.clone();
+        bare.on("*", Arc::new(move |_r: &Req| Plan::ok(resp.clone())));
+        for kind in [Kind::Blocking, Kind::Async] {
+            for scheme in ["ipp", "http"] {
+                for (rest, want) in [("", "/"), ("/", "/"), ("/?waitjob=false", "/?waitjob=false"), ("/a", "/a"), ("//", "//"), ("/ipp", "/ipp"), ("/ipp/print", "/ipp/print"), ("/?", "/?")] {
+                    for configured in [false, true] {
+                        n += 1;
+                        let uri = format!("{scheme}://127.0.0.1:{}{rest}", bare.port);
+                        let mut attrs = std::collections::BTreeMap::new();
+                        attrs.insert("attributes-charset".to_string(), MVal::Text { tag: 0x47, s: "utf-8".into() });
+                        attrs.insert("attributes-natural-language".to_string(), MVal::Text { tag: 0x48, s: "en".into() });
+                        let req = mirror::to_ipp(&Model { version: 0x0101, code: 0x000b, id: n, groups: vec![MGroup { tag: 1, attrs }], data: vec![] });
+                        let ccfg = if configured { ClientCfg { timeout_ms: Some(30_000), ..ClientCfg::default() } } else { ClientCfg::default() };
+                        let before = bare.all_requests().len();
+                        let result = match kind {
+                            Kind::Blocking => send_blocking(&blocking_client(&uri, &ccfg), req),
+                            Kind::Async => send_async(&rt, &async_client(&uri, &ccfg), req),
+                        };
+                        let seen: Vec<Req> = bare.all_requests().into_iter().skip(before).collect();
+                        rep.eval();
+                        rep.count("shortest_path_cells", 1);
+                        rep.nontrivial(vkit::rng::hash64(format!("bare/{kind:?}/{uri}/{configured}").as_bytes()));
+                        let label = format!("{kind:?} client ({}), target {uri}", if configured { "builder" } else { "plain constructor" });
+                        let replay = vec!["c14".to_string()];
+                        if seen.len() != 1 || !result.is_ok() {
+                            rep.violation("C14:wire:request-count", format!("{label}: the peer saw {} requests ({})", seen.len(), result.short()), replay);
+                        } else if seen[0].target != want && !(want == "/?" && seen[0].target == "/") {
+                            rep.violation("C14:wire:request-target", format!("{label}: request target {:?}, expected {want:?} (path and query unchanged)", seen[0].target), replay);
+                        }
+                    }
+                }
+            }
+        }
+        bare.stop();
+    }
+    for note in crate::clients::take_uri_notes() {
+        rep.violation("C14:client-holds-another-target", note, vec!["c14".to_string()]);
+    }
     // ---- one client object re-used: whatever an earlier exchange returned (an HTTP error status such as 426 Upgrade Required,
     // a redirect, an IPP error), the next send of the same client contacts the same URL again
     if only.is_none() {
@@ -140,7 +181,7 @@ pub fn run(args: &Args, tier: &str, seed: u64) -> Report {
         }
     }
     srv.stop();
-    rep.rule = "Wire part of C14: {blocking, async} x {ipp, http} x host {127.0.0.1, localhost, LocalHost} x user-info {none, u@, User:pa%20ss@, a:b:c@} x path/query forms, every target with the loopback peer's explicit port. Monitor on the peer's request log: exactly one request arrives on that port, its request target equals the target's path and query, its single Host header equals host:port (host compared ASCII-case-insensitively); plus 16 client-reuse sequences: one client object whose first send was answered with an HTTP error / redirect status contacts the same URL on its second send.".into();
+    rep.rule = "Wire part of C14: {blocking, async} x {ipp, http} x host {127.0.0.1, localhost, LocalHost} x user-info {none, u@, User:pa%20ss@, a:b:c@} x path/query forms, every target with the loopback peer's explicit port. Monitor on the peer's request log: exactly one request arrives on that port, its request target equals the target's path and query, its single Host header equals host:port (host compared ASCII-case-insensitively); plus 64 shortest-path cells against a second peer that answers any target (no path, \"/\", \"/?query\", \"/a\", \"//\", \"/ipp\", \"/ipp/print\", \"/?\" x both clients x {ipp, http} x {plain constructor, builder}): the request line carries exactly that path and query (an empty path is \"/\"); every client built by a plain constructor must hold a target that maps to the same transport URL as the one it was given; plus 16 client-reuse sequences: one client object whose first send was answered with an HTTP error / redirect status contacts the same URL on its second send.".into();
     if only.is_none() {
         rep.require(rep.evaluations >= 2 * 2 * 3 * 4 * 6, "all wire cells executed");
     }
